@@ -2,6 +2,7 @@
 # usage: tools/seedrun.sh <patch> <PROP[:only]>...   evaluates a seeded change in the scratch worktree /tmp/seedtest
 # (development aid while long runs use /repo; the recorded procedure applies the patch to /repo itself)
 P=$1; shift
+[ -d /tmp/seedtest ] || git -C /repo worktree add -q --detach /tmp/seedtest HEAD   # scratch worktree; remove with: git -C /repo worktree remove --force /tmp/seedtest
 git -C /tmp/seedtest checkout -q -- . && git -C /tmp/seedtest checkout -q --detach $(git -C /repo rev-parse HEAD) && git -C /tmp/seedtest apply "$P" || { echo "patch does not apply"; exit 2; }
 for spec in "$@"; do
   prop=${spec%%:*}; only=${spec#*:}
